@@ -19,6 +19,7 @@ type converter struct {
 	code                          []string
 	varCounter                    int
 	forCounter                    int
+	fors                          []int
 	funcs                         []funcInfo
 	funcCounter                   int
 	sliceAssignmentHelperRequired bool
@@ -167,6 +168,9 @@ func (c *converter) ElseEnd() error {
 }
 
 func (c *converter) ForStart() error {
+	// Every loop gets its own first-iteration flag, nested loops must not share one.
+	c.fors = append(c.fors, c.forCounter)
+	c.forCounter++
 	c.addLine(fmt.Sprintf(`%s=`, c.mustCurrentForVar()))
 	c.addLine("while true; do")
 	return nil
@@ -190,8 +194,9 @@ func (c *converter) ForCondition(condition string) error {
 
 func (c *converter) ForEnd() error {
 	c.addLine("done")
-	c.forCounter++
 
+	lastIndex := len(c.fors) - 1
+	c.fors = slices.Delete(c.fors, lastIndex, lastIndex+1)
 	return nil
 }
 
@@ -542,7 +547,7 @@ func (c *converter) ReadFile(path string, valueUsed bool) (string, error) {
 }
 
 func (c *converter) mustCurrentForVar() string {
-	return fmt.Sprintf("_fv%d", c.forCounter)
+	return fmt.Sprintf("_fv%d", c.fors[len(c.fors)-1])
 }
 
 func (c *converter) varName(name string, global bool) string {
